@@ -2080,6 +2080,16 @@ void Node::tick() {
         {
             SchedulerLock lock(scheduler_mutex_);
             dht_.sweep_expired();
+            // Cached manifests and the distribution plans derived from them expire with the manifest.
+            const auto wall_now = std::chrono::system_clock::now();
+            for (auto it = manifest_cache_.begin(); it != manifest_cache_.end();) {
+                if (it->second.expires_at <= wall_now) {
+                    swarm_plans_.erase(it->first);
+                    it = manifest_cache_.erase(it);
+                } else {
+                    ++it;
+                }
+            }
         }
         last_cleanup_ = now;
     }
